@@ -8,10 +8,10 @@
 //! <text>, <name>, error payloads: '.'-separated hexadecimal code points ('-' for the empty string).
 //! <parts>: `P <w0> <name> <wOpen> <nargs> {<cst> <wAfter>}* <nbits> {<w> <zeros> <val>}* <wEnd>` per part, blanks as
 //! `w<hex>`, <cst> in prefix form (`L w t`, `B op a w b`, `N w a`, `F w1 f w2 a w3`, `P w1 a w2`).
-//! Answer: `ok <width> <name> | mat <n> <re im>...` (`mat -` if wider than <maxw>, `mat panic`), `err <ctor> <payload>`, `panic`.
+//! Answer: `ok <width> <name> | ops <k> <name>[(<p>,..)]@<b>,.. ... | mat <n> <re im>...` (`mat -` if wider than <maxw>, `mat panic`), `err <ctor> <payload>`, `panic`.
 //!
-//! The sub-gate list of a `Composite` is private: it is observed through `matrix()` (width <= maxw).  With the hook
-//! requested in /verif/hook_requests/C15.md (`Composite::verif_ops`) `sub_ops` below can report it directly.
+//! The sub-gate list of a `Composite` is observed through the hook `Composite::verif_ops` (every width) and `matrix()`
+//! (width <= maxw).
 use q1t_harness::*;
 use q1tsim::error::ParseError;
 use q1tsim::gates::{Composite, Gate};
@@ -44,33 +44,57 @@ fn err_line(e: &ParseError) -> String
     }
 }
 
-fn answer(name: &str, maxw: usize, text: &str) -> String
+/// One sub-gate as reported by the hook `Composite::verif_ops`: `<name>[(<p1>,<p2>…)]@<b0>,<b1>…` — the name is the
+/// description up to its parameter list (hex), the parameters are the description's decimals (4 places).
+fn op_token(desc: &str, bits: &[usize]) -> String
+{
+    let (nm, params) = match desc.find('(')
+    {
+        Some(i) => (&desc[..i], desc[i + 1..].trim_end_matches(')').split(',').map(|p| p.trim().to_string()).collect::<Vec<_>>()),
+        None => (desc, vec![])
+    };
+    let ps = if params.is_empty() { String::new() } else { format!("({})", params.join(",")) };
+    format!("{}{}@{}", hex(nm), ps, bits.iter().map(|b| b.to_string()).collect::<Vec<_>>().join(","))
+}
+
+/// Everything observable of a composite: width, name, sub-gate list (hook), matrix (width <= maxw).
+fn observe(g: &Composite, maxw: usize) -> String
+{
+    let w = g.nr_affected_bits();
+    let nm = g.description().to_string();
+    let ops = g.verif_ops();
+    let ops_s = ops.iter().map(|(d, b)| format!(" {}", op_token(d, b))).collect::<String>();
+    let mat = if w > maxw { "-".to_string() } else {
+        match catch(std::panic::AssertUnwindSafe(|| g.matrix()))
+        {
+            Some(m) => {
+                let mut s = format!("{}", m.rows());
+                for c in m.iter() { s += &format!(" {} {}", fbits(c.re), fbits(c.im)); }
+                s
+            },
+            None => "panic".to_string()
+        }
+    };
+    format!("ok {} {} | ops {}{} | mat {}", w, hex(&nm), ops.len(), ops_s, mat)
+}
+
+fn build(name: &str, text: &str) -> Option<Result<Composite, ParseError>>
 {
     let (n, t) = (name.to_string(), text.to_string());
-    let r = catch(move || {
-        match Composite::from_string(&n, &t)
-        {
-            Ok(g) => {
-                let w = g.nr_affected_bits();
-                let nm = g.description().to_string();
-                let mat = if w > maxw { "-".to_string() } else {
-                    match catch(std::panic::AssertUnwindSafe(|| g.matrix()))
-                    {
-                        Some(m) => {
-                            let mut s = format!("{}", m.rows());
-                            for c in m.iter() { s += &format!(" {} {}", fbits(c.re), fbits(c.im)); }
-                            s
-                        },
-                        None => "panic".to_string()
-                    }
-                };
-                format!("ok {} {} | mat {}", w, hex(&nm), mat)
-            },
-            Err(e) => err_line(&e)
-        }
-    });
-    r.unwrap_or_else(|| "panic".to_string())
+    catch(move || std::panic::AssertUnwindSafe(Composite::from_string(&n, &t))).map(|r| r.0)
 }
+
+fn show(r: &Option<Result<Composite, ParseError>>, maxw: usize) -> String
+{
+    match r
+    {
+        Some(Ok(g)) => catch(std::panic::AssertUnwindSafe(|| observe(g, maxw))).unwrap_or_else(|| "panic".to_string()),
+        Some(Err(e)) => err_line(e),
+        None => "panic".to_string()
+    }
+}
+
+fn answer(name: &str, maxw: usize, text: &str) -> String { show(&build(name, text), maxw) }
 
 // ---------------------------------------------------------------------------------------------
 // argument expressions (concrete syntax with layout), as in c14.rs but of moderate magnitude
@@ -297,6 +321,8 @@ fn indices(rng: &mut SplitMix64, k: usize, width: usize, dup: bool) -> Vec<Strin
     let mut all: Vec<usize> = (0..width.max(k)).collect();
     rng.shuffle(&mut all);
     let mut v: Vec<usize> = all[..k].to_vec();
+    // now and then strictly descending (`CX 3 1`, `CCX 2 1 0`); otherwise a random order
+    if rng.below(4) == 0 { v.sort(); v.reverse(); }
     if dup && k > 1 { v[1] = v[0]; }
     v.iter().map(|x| x.to_string()).collect()
 }
@@ -375,34 +401,89 @@ fn main()
         }
     }
 
+    // parameter order: the gates with several parameters, alone, with clearly different parameter values
+    for rep in 0..(4 * scale as usize)
+    {
+        for key in ["u2", "u3", "cu2", "cu3"]
+        {
+            let k = GATES.iter().position(|g| g.0 == key).unwrap();
+            let mut p = known_part(&mut rng, 2, Some(k), false);
+            let mut vals = vec!["0.3", "1.1", "2.5", "pi/3", "-0.7", "4"];
+            rng.shuffle(&mut vals);
+            for (i, a) in p.args.iter_mut().enumerate()
+            {
+                let t = vals[i];
+                a.0 = if let Some(r) = t.strip_prefix('-') { Cst::N(ws(&mut rng), Box::new(Cst::L(String::new(), r.to_string()))) }
+                      else if t == "pi/3" { Cst::B('/', Box::new(Cst::L(ws(&mut rng), "pi".to_string())), ws(&mut rng), Box::new(Cst::L(ws(&mut rng), "3".to_string()))) }
+                      else { Cst::L(ws(&mut rng), t.to_string()) };
+            }
+            let _ = rep;
+            let s = p.render();
+            out.case(&format!("g {} {} {} | {}", hex("G"), maxw, hex(&s), p.ser()), &answer("G", maxw, &s));
+        }
+    }
+
     // grammar-generated descriptions: 1..6 parts
-    let ngen = 900 * scale;
+    let ngen = 800 * scale;
+    let mut history: Vec<(String, String, String)> = vec![];      // (request line, name, text) of earlier cases
     for i in 0..ngen
     {
         let nparts = 1 + (i % 6) as usize;
-        let width = 1 + rng.below(maxw as u64) as usize;
+        let place = i % 4 == 3 && nparts >= 2;
+        let width = if place { 1 + rng.below(maxw as u64 - 1) as usize } else { 1 + rng.below(maxw as u64) as usize };
         let ovf = rng.below(25) == 0;
         let mut ps: Vec<Part> = (0..nparts).map(|_| known_part(&mut rng, width, None, ovf)).collect();
-        match rng.below(30)
+        if place
         {
-            0 => { // repeated qubit within one sub-gate
-                let j = rng.below(nparts as u64) as usize;
-                if ps[j].bits.len() > 1 { let v = ps[j].bits[0].2.clone(); ps[j].bits[1].2 = v; }
-            },
-            1 | 2 => { // a large index: wider than any matrix we take
-                let j = rng.below(nparts as u64) as usize;
-                ps[j].bits[0].2 = (*rng.pick(&["7", "12", "40", "63", "64", "1000000", "4294967296", "18446744073709551614"])).to_string();
-            },
-            3 => { // usize::MAX: no width; beyond: not an index
-                let j = rng.below(nparts as u64) as usize;
-                ps[j].bits[0].2 = (*rng.pick(&["18446744073709551615", "18446744073709551616", "117356715625188271521875"])).to_string();
-            },
-            _ => {}
+            // the highest index occurs exactly once: in the first / a middle / the last part (cycling), at a random position
+            // of that part's qubit list
+            let top = ps.iter().flat_map(|p| p.bits.iter().map(|b| b.2.parse::<usize>().unwrap())).max().unwrap() + 1;
+            let j = match (i / 4) % 3 { 0 => 0, 1 => nparts / 2, _ => nparts - 1 };
+            let k = rng.below(ps[j].bits.len() as u64) as usize;
+            ps[j].bits[k].2 = top.to_string();
+        }
+        else
+        {
+            match rng.below(30)
+            {
+                0 => { // repeated qubit within one sub-gate
+                    let j = rng.below(nparts as u64) as usize;
+                    if ps[j].bits.len() > 1 { let v = ps[j].bits[0].2.clone(); ps[j].bits[1].2 = v; }
+                },
+                1 | 2 => { // a large index: wider than any matrix we take
+                    let j = rng.below(nparts as u64) as usize;
+                    ps[j].bits[0].2 = (*rng.pick(&["7", "12", "40", "63", "64", "1000000", "4294967296", "18446744073709551614"])).to_string();
+                },
+                3 => { // usize::MAX: no width; beyond: not an index
+                    let j = rng.below(nparts as u64) as usize;
+                    ps[j].bits[0].2 = (*rng.pick(&["18446744073709551615", "18446744073709551616", "117356715625188271521875"])).to_string();
+                },
+                _ => {}
+            }
         }
         let s = join_parts(&ps.iter().map(|p| p.render()).collect::<Vec<_>>());
         let nm = *rng.pick(&names);
         let st = ps.iter().map(|p| p.ser()).collect::<Vec<_>>().join(" ");
-        out.case(&format!("g {} {} {} | {}", hex(nm), maxw, hex(&s), st), &answer(nm, maxw, &s));
+        let req = format!("g {} {} {} | {}", hex(nm), maxw, hex(&s), st);
+        if i % 8 == 5 && !history.is_empty()
+        {
+            // object histories: build an earlier description, then this one under the SAME name while the first object is
+            // alive, then the earlier one again; observe all three afterwards (nothing may leak between the calls)
+            let (req0, _, text0) = rng.pick(&history).clone();
+            let a = build(nm, &text0);
+            let b = build(nm, &s);
+            let c = build(nm, &text0);
+            // the earlier request line carries its own name: re-answer it under that name only if it is the same name
+            let req0n = { let mut f: Vec<&str> = req0.splitn(3, ' ').collect(); let h = hex(nm); f[1] = &h; f.join(" ") };
+            out.case(&req0n, &show(&a, maxw));
+            out.case(&req, &show(&b, maxw));
+            out.case(&req0n, &show(&c, maxw));
+        }
+        else
+        {
+            out.case(&req, &answer(nm, maxw, &s));
+        }
+        if history.len() < 64 { history.push((req, nm.to_string(), s)); } else { let k = rng.below(64) as usize; history[k] = (req, nm.to_string(), s); }
     }
 
     // malformed by construction: <good parts> ; <bad part> [; <more>]
